@@ -102,6 +102,15 @@ def extra_family() -> list[dict]:
     return fam
 
 
+def halt_family() -> list[dict]:
+    """a NON-last task of a stage halts (terminal / stops its branch only), with and without a parallel branch"""
+    fam = []
+    fam.append(P("termfirst", [S("a", tasks=[T("a.1", "terminal"), T("a.2")]), S("b", ["a"])]))
+    fam.append(P("stopfirst", [S("r"), S("x", ["r"], failp=False, tasks=[T("x.1", "terminal"), T("x.2")]),
+                               S("y", ["r"], tasks=[T("y.1", "poll", 2)]), S("z", ["x", "y"])]))
+    return fam
+
+
 def lazy_family() -> list[dict]:
     """stages whose tasks are built by the stage's builder at planning time (no task rows before the plan commit):
     the claim -> plan crash window is repaired by the zombie re-plan"""
@@ -172,7 +181,7 @@ def control_family() -> list[dict]:
 
 def all_programs() -> list[dict]:
     return [with_outputs(p) for p in core_family() + extra_family() + control_family() + synthetic_family()
-            + operator_family() + region_family() + split_family() + lazy_family()]
+            + operator_family() + region_family() + split_family() + lazy_family() + halt_family()]
 
 
 # ----------------------------------------------------------------------------------------------
@@ -235,6 +244,34 @@ def build_workflow(prog: dict):
         wctx["_max_jumps"] = prog["maxJumps"]
     wf = Workflow.create(application="verif", name=prog["name"], stages=stages, context=wctx)
     wf.id = "W-" + prog["name"]
+    return wf
+
+
+def build_decoy(prog: dict):
+    """An OLDER, finished workflow stored in the same database: same stage ref_ids and task names as the program, but no
+    prerequisites at all, everything SUCCEEDED.  It takes no part in the run (recovery ignores finished workflows); any
+    query of the engine that forgets to scope by execution then reads the decoy's rows first."""
+    from stabilize import StageExecution, TaskExecution, Workflow
+    from stabilize.models.status import WorkflowStatus
+
+    stages = []
+    for i, sd in enumerate(prog["stages"]):
+        if sd["parent"]:
+            continue
+        tasks = []
+        for j, td in enumerate(sd["tasks"]):
+            te = TaskExecution.create(name=td["name"], implementing_class=task_class_name(td["name"]),
+                                      stage_start=(j == 0), stage_end=(j == len(sd["tasks"]) - 1))
+            te.id = "A%03d%03d-%s" % (i, j, td["name"])      # sorts before the real ids
+            te.status = WorkflowStatus.SUCCEEDED
+            tasks.append(te)
+        st = StageExecution(ref_id=sd["ref"], type="verif", name=sd["ref"], context={"decoy": True}, tasks=tasks)
+        st.id = "A%03d-%s" % (i, sd["ref"])
+        st.status = WorkflowStatus.SUCCEEDED
+        stages.append(st)
+    wf = Workflow.create(application="verif", name=prog["name"] + "-decoy", stages=stages, context={})
+    wf.id = "A-decoy-" + prog["name"]
+    wf.status = WorkflowStatus.SUCCEEDED
     return wf
 
 
@@ -311,6 +348,9 @@ def synthetic_family() -> list[dict]:
                                  S("p.b1", parent="p", owner="BEFORE"), S("p.a1", parent="p", owner="AFTER")]))
     fam.append(P("beforefail", [S("p"), S("z", ["p"]), S("p.b1", parent="p", owner="BEFORE", tasks=[T("p.b1.1", "terminal")])]))
     fam.append(P("afterfail", [S("p"), S("z", ["p"]), S("p.a1", parent="p", owner="AFTER", tasks=[T("p.a1.1", "terminal")])]))
+    # a continue-on-failure parent with two parallel after-stages, the failing one finishes first
+    fam.append(P("aftercof2", [S("p", cof=True), S("q", ["p"]), S("p.a1", parent="p", owner="AFTER", tasks=[T("p.a1.1", "terminal")]),
+                               S("p.a2", parent="p", owner="AFTER", tasks=[T("p.a2.1", "poll", 1)])]))
     fam.append(P("siblingfail", [S("a"), S("bad", ["a"], tasks=[T("bad.1"), T("bad.2", "terminal")]),
                                  S("dep", ["a"]), S("dep.b1", parent="dep", owner="BEFORE", tasks=[T("dep.b1.1"), T("dep.b1.2")])]))
     return fam
